@@ -41,6 +41,8 @@ requests (bytes are arrays of 0..255, text arrays of code points):
         → {"surfedges":[b…],"edges":[b…],"verts":[id…]}
   {"op":"x_water","layout":L,"texinfo":[id…],"items":[{sz,mz,texinfo}]} → {"bytes":[b…],"texinfo":[id…]}
   {"op":"x_vfaces","tabs":{texinfo,planes,surfedges},"faces":[{plane,texinfo,dispinfo,edges,lm,flags}]} → {"bytes":[b…],"tabs":{…}}
+  {"op":"x_bmodels","nodes":[id…],"faces":[id…],"world":id,"entModels":[id…],"md":[[id,{floats,node,faces,kv:[b…]|null,solids:[[b…]…]}]…]}
+        → {"idx":[n…],"bytes":[b…],"phys":[b…],"models":[id…],"nodes":[id…],"faces":[id…]} | {"err":e}
   {"op":"gen"}                                           → facts extracted from the source
 -/
 open Lean StructCodec C11
@@ -509,6 +511,26 @@ def handle (j : Json) : Except String Json := do
     pure (Json.mkObj [("bytes", ← packRecs "faces" "LUMP_LAYOUT_VITAMIN" r.1),
       ("tabs", Json.mkObj [("texinfo", Wire.ofNatList r.2.fTex.list), ("planes", Wire.ofNatList r.2.fPlane.list),
         ("surfedges", Wire.ofNatList r.2.eEdges.list)])])
+  | "x_bmodels" =>
+    let nodes ← natsOf j "nodes"
+    let faces ← natsOf j "faces"
+    let world ← natOf j "world"
+    let entModels ← natsOf j "entModels"
+    let mj ← (← j.getObjVal? "md").getArr?
+    let mds ← mj.toList.mapM fun q => do
+      let a ← q.getArr?
+      let o := a[1]!
+      let fl ← Wire.natList (← o.getObjVal? "floats")
+      let kv : Option Bytes ← (match o.getObjVal? "kv" with
+        | .ok Json.null => pure none
+        | .ok x => do pure (some (← bytesOf x))
+        | .error _ => pure none)
+      pure ((← (a[0]!).getNat?), BModelV.mk (fl.map UInt32.ofNat) (← natOf o "node") (← natsOf o "faces") kv (← bytesList (← o.getObjVal? "solids")))
+    match writeBModels Gen.Bspfmt.findOrExtendBounded (lookupD mds ⟨[], 0, [], none, []⟩) nodes faces world entModels with
+    | .error e => pure (errJson (lumpErr e))
+    | .ok (idx, recs, phys, ml, nodes', faces') =>
+      pure (Json.mkObj [("idx", Wire.ofNatList idx), ("bytes", ← packRecs "models" "*" recs), ("phys", ofBytes phys),
+        ("models", Wire.ofNatList ml), ("nodes", Wire.ofNatList nodes'), ("faces", Wire.ofNatList faces')])
   | "gen" =>
     pure (Json.mkObj [
       ("findOrExtendBounded", Json.bool Gen.Bspfmt.findOrExtendBounded),
